@@ -33,6 +33,22 @@ def scenarios(rng: random.Random, n: int, thorough: bool):
     return scs
 
 
+def long_cards(rng: random.Random, n: int, start_tid: int):
+    """Long range cards asked for in round numbers of a unit whose inch conversion is inexact (hundreds of rows: the quotient
+    range / step is a whole number in the user's unit but carries rounding in the library's): the row AT the range is owed"""
+    scs = []
+    menu = [(500.0, 1.0, "Meter"), (1000.0, 2.0, "Meter"), (1000.0, 2.5, "Meter"), (2000.0, 5.0, "Meter"), (1.2, 0.002, "Kilometer"),
+            (90000.0, 250.0, "Centimeter"), (700.0, 1.0, "Yard"), (630.0, 0.7, "Meter")]
+    for i in range(n):
+        R, S, un = menu[i % len(menu)] if i < len(menu) else (float(rng.randrange(300, 1500)), rng.choice([1.0, 2.0, 2.5, 0.5, 4.0]), "Meter")
+        p = shots.gen_shot(rng, winds=0, look=0.0)
+        p["mv_fps"], p["table"], p["bc"] = 2900.0, "G7", 0.3
+        ft = {"Meter": 1 / 0.3048, "Kilometer": 1000 / 0.3048, "Centimeter": 0.01 / 0.3048, "Yard": 3.0}[un]
+        scs.append({"shot": p, "cfg": {"max_calc_step_size_feet": 2.0}, "tid": start_tid + i, "kind": "long_card", "range_ft": R * ft,
+                    "unit": "Foot", "step_ft": S * ft, "extra": False, "request_in_unit": [R, S, un]})
+    return scs
+
+
 def adversarial(rng: random.Random, n: int, start_tid: int):
     """Requests whose range is placed, from a dry run of the same shot, so that one integration step jumps from before
     the last record distance to beyond the loop bound range + min_step (possible whenever the ground advance of a step
@@ -127,10 +143,13 @@ def run(chk: core.Check, replay=None) -> None:
     rng = random.Random(chk.seed * 7 + 3)
     scs = scenarios(rng, 400 if thorough else 36, thorough)
     scs += adversarial(rng, 120 if thorough else 12, len(scs) + 1)
+    scs += long_cards(rng, 40 if thorough else 4, 100000)
     outs = scen.run_batch(scs)
     for o in outs:
         sc, summ = o["sc"], o.get("summ", {})
         chk.count(1, ("shot", o["tid"]) if summ.get("n_rows", 0) >= 3 else None)
+        if sc["kind"] == "long_card":
+            chk.stratum("long_card_in_round_metric_numbers")
         if o["outcome"] == "ok":
             chk.stratum("done")
             if summ.get("max_adv_over_step", 0) and sc["kind"] in ("tail", "strongtail"):
@@ -153,7 +172,7 @@ def run(chk: core.Check, replay=None) -> None:
         chk.sample({"scenario": o["sc"], "outcome": o["outcome"], "rows": len(o["rows"]), "projected_lines": o["summ"].get("lines"),
                     "first_lines": o["lines"][:3]})
     chk.sample({"tlc_behaviour": {k: v for k, v in behs[0].items() if k != "consts"}})
-    chk.require_strata(["adversarial_range_1_segments", "adversarial_range_2_segments", "done", "tail_wind", "default_step", "non_dividing_step", "dividing_step", "time_step",
+    chk.require_strata(["long_card_in_round_metric_numbers", "adversarial_range_1_segments", "adversarial_range_2_segments", "done", "tail_wind", "default_step", "non_dividing_step", "dividing_step", "time_step",
                         "obj_flag_R", "obj_interpolated_row"])
     chk.exhaustive = False
     chk.rule.append("design: Integrator.tla exhaustively on the listed constant sets; spec->code: distinct TLC-simulated controller "
